@@ -54,7 +54,31 @@ def mutants_table():
     return open(p).read().strip() if os.path.exists(p) else "(not run)"
 
 
-GEN = {"fixes": fixes_table, "open": open_table, "seeded": seeded_table, "mutants": mutants_table}
+def asbuilt_table():
+    """One line per property from the committed quick-tier evidence files."""
+    import glob
+    known = json.load(open(os.path.join(VERIF, "known_findings.json")))
+    seeds = {}
+    for d in glob.glob(os.path.join(VERIF, "seeded", "C*")):
+        seeds.setdefault(os.path.basename(d)[:3], []).append(d)
+    rows = ["| id | sub-checks (as built) | quick: cases / oracle evaluations / distinct non-trivial | exhaustive subs | "
+            "quick wall | fixes in /repo | open findings | seeded changes filed |", "|---|---|---|---|---|---|---|---|"]
+    for f in sorted(glob.glob(os.path.join(VERIF, "evidence", "C*.json"))):
+        e = json.load(open(f))
+        pid = e["property_id"]
+        subs = e["coverage"].get("sub_checks", {})
+        names = ", ".join(f"`{n}`" for n in subs)
+        ex = sum(1 for s_ in subs.values() if s_.get("exhaustive"))
+        nf = sum(1 for x in known.get("fixed", []) if x["property"] == pid)
+        no = [x["id"] for x in known.get("open", []) if x["property"] == pid]
+        rows.append(f"| {pid} | {len(subs)}: {names} | {e['coverage']['cases_generated']} / {e['coverage']['evaluations']} / "
+                    f"{e['coverage']['distinct_nontrivial']} | {ex} | {e.get('wall_s', '?')} s ({e['tier']}, seed {e['seed']}) | "
+                    f"{nf} | {', '.join(no) or '-'} | {len(seeds.get(pid, []))} |")
+    return "\n".join(rows)
+
+
+GEN = {"fixes": fixes_table, "open": open_table, "seeded": seeded_table, "mutants": mutants_table,
+       "asbuilt": asbuilt_table}
 
 
 def main():
